@@ -57,7 +57,12 @@ pub fn golden_specs() -> Vec<Spec> {
 }
 
 fn key(spec: &Spec) -> String {
-    serde_json::to_string(spec).unwrap()
+    // Static twins share the recordings of the zone they both are.
+    let spec = match spec {
+        Spec::Static(_) => spec.canon(),
+        s => s.clone(),
+    };
+    serde_json::to_string(&spec).unwrap()
 }
 
 /// A fingerprint of a zone's behaviour over a dense grid: offset, DST flag
@@ -307,8 +312,35 @@ pub fn static_matches_heap() -> Result<(), String> {
                 }
             }
         }
+        // Two expansions of the same `get!` (other static data, same zone)
+        // are the same zone: equal, in both orders, and behaving alike.
+        let twin = interp::make_tz(&Spec::Static(i + N_STATIC));
+        if !(s == twin && twin == s) {
+            return Err(format!(
+                "[eq_value] two static handles of {} from two `get!` expansions compare unequal",
+                interp::STATIC_NAMES[i as usize]
+            ));
+        }
+        if digest(&s) != digest(&twin) {
+            return Err(format!(
+                "[static_vs_heap] two static expansions of {} behave differently over the probe grid",
+                interp::STATIC_NAMES[i as usize]
+            ));
+        }
     }
     Ok(())
+}
+
+/// Whether the two expansions of each static zone really are different
+/// static data (if the compiler merged them, comparing them proves nothing).
+pub fn static_twins_distinct() -> bool {
+    (0..N_STATIC).all(|i| {
+        let a = interp::make_tz(&Spec::Static(i));
+        let b = interp::make_tz(&Spec::Static(i + N_STATIC));
+        let (x, y): (usize, usize) =
+            unsafe { (std::mem::transmute_copy(&a), std::mem::transmute_copy(&b)) };
+        x != y
+    })
 }
 
 /// The recorded answer, if this (spec, query, instant) is in the table.
